@@ -285,34 +285,51 @@ Fixpoint pieces_ok (last : option kind) (ps : list piece) : bool :=
     end
   end.
 
-(* comments behind the last token: only a `--` comment directly behind it (blanks between) is attached
-   to a token (as its trailing comment); anything else would be lost *)
-Fixpoint after_last_lex (cur ps : list piece) : list piece :=
+(* Which comments of a rendering does the tokenizer attach to a token?  Those in front of a token text
+   (leading), and a `--` comment that directly follows a token text, blanks between (trailing).  Comments
+   behind the last token other than its trailing comment are attached to nothing: `all_attached`
+   demands that there are none. *)
+Fixpoint split_lex (ps : list piece) : list piece * option (token * list piece) :=
   match ps with
-  | [] => cur
-  | PLex _ :: r => after_last_lex r r
-  | _ :: r => after_last_lex cur r
+  | [] => ([], None)
+  | PLex t :: r => ([], Some (t, r))
+  | p :: r => (p :: fst (split_lex r), snd (split_lex r))
   end.
-Definition is_comment_piece (p : piece) : bool :=
-  match p with PLine _ | PBlock _ => true | _ => false end.
 Fixpoint drop_blank32 (ps : list piece) : list piece :=
   match ps with
   | PBlank c :: r => if c =? 32 then drop_blank32 r else ps
   | _ => ps
   end.
-Definition has_lex (ps : list piece) : bool := existsb (fun p => match p with PLex _ => true | _ => false end) ps.
-Definition final_gap_ok (ps : list piece) : bool :=
-  let g := after_last_lex ps ps in
-  if has_lex ps then
-    match drop_blank32 g with
-    | PLine _ :: r => negb (existsb is_comment_piece r)
-    | r => negb (existsb is_comment_piece r)
+Definition after_trail (ps : list piece) : option (list char) * list piece :=
+  match drop_blank32 ps with
+  | PLine v :: r => (Some v, r)
+  | r => (None, r)
+  end.
+Fixpoint gap_keys (ps : list piece) : list (bool * list char) :=
+  match ps with
+  | [] => []
+  | PLine v :: r => (false, v) :: gap_keys r
+  | PBlock v :: r => (true, v) :: gap_keys r
+  | _ :: r => gap_keys r
+  end.
+Definition trail_key (o : option (list char)) : list (bool * list char) :=
+  match o with Some v => [(false, v)] | None => [] end.
+Fixpoint attached_keys (fuel : nat) (ps : list piece) : list (bool * list char) :=
+  match fuel with
+  | O => []
+  | S f =>
+    match split_lex ps with
+    | (_, None) => []
+    | (g, Some (_, ps2)) => gap_keys g ++ trail_key (fst (after_trail ps2)) ++ attached_keys f (snd (after_trail ps2))
     end
-  else negb (existsb is_comment_piece g).
+  end.
+Definition ckey_flat (k : bool * list char) : list N := (if fst k then 1 else 0) :: N.of_nat (length (snd k)) :: snd k.
+Definition all_attached (ps : list piece) : bool :=
+  leqb (flat_map ckey_flat (attached_keys (S (length ps)) ps)) (flat_map ckey_flat (gap_keys ps)).
 
 (* the separator discipline of a trace, and of a token/separator list *)
 Definition ops_sep_ok (l : list op) : bool :=
-  match render_pieces l with Some ps => pieces_ok None ps && final_gap_ok ps | None => false end.
+  match render_pieces l with Some ps => pieces_ok None ps && all_attached ps | None => false end.
 Definition sep_ok_from (s0 : sep) (l : list (token * sep)) : bool := ops_sep_ok (trace_of s0 l).
 Definition sep_ok (l : list (token * sep)) : bool := sep_ok_from [] l.
 
@@ -372,7 +389,6 @@ Definition same_stream (ts ts' : list token) : Prop :=
 (* boolean version, used by the extracted runner *)
 Definition kind_eqb (a b : kind) : bool := leqb (kind_code a) (kind_code b).
 Definition value_eqb (a b : value) : bool := leqb (flat_value a) (flat_value b).
-Definition ckey_flat (k : bool * list char) : list N := (if fst k then 1 else 0) :: N.of_nat (length (snd k)) :: snd k.
 Definition same_stream_b (ts ts' : list token) : bool :=
   leqb (flat_map (fun t => kind_code (t_kind t) ++ flat_value (t_val t)) ts')
        (flat_map (fun t => kind_code (t_kind t) ++ flat_value (t_val t)) ts)
